@@ -1,6 +1,7 @@
 import FitModel.Accum
 import Mathlib.Tactic.Ring
 import Mathlib.Tactic.Linarith
+import Mathlib.Tactic.SplitIfs
 /-!
 Lemmas about decoder/accumulator.go (`FitModel/Accum.lean`): the table behaves as a map from (message, field) to
 (last, value); `Accumulate` on a present key adds the distance travelled by a counter of the given width.
@@ -180,5 +181,39 @@ theorem collect_lookup (a : Acc) (m f v : Nat) :
       unfold lookup at he ⊢
       simp only [List.find?_cons, hk, decide_false]
       exact he
+
+theorem lookup_collect_ne (a : Acc) (m f v m' f' : Nat) (h : ¬ (m' = m ∧ f' = f)) :
+    lookup (collect a m f v) m' f' = lookup a m' f' := by
+  induction a with
+  | nil =>
+    simp only [collect, lookup, List.find?_cons, List.find?_nil]
+    have : ¬ (m = m' ∧ f = f') := fun ⟨h1, h2⟩ => h ⟨h1.symm, h2.symm⟩
+    simp [this]
+  | cons e es ih =>
+    simp only [collect]
+    split_ifs with hk
+    · obtain ⟨h1, h2⟩ := hk
+      have hne : ¬ (e.mesgNum = m' ∧ e.fieldNum = f') := fun ⟨g1, g2⟩ => h ⟨by rw [← g1, h1], by rw [← g2, h2]⟩
+      simp only [lookup, List.find?_cons, hne, decide_false]
+    · unfold lookup at ih ⊢
+      simp only [List.find?_cons]
+      rw [ih]
+
+theorem lookup_accumulate_ne (a : Acc) (m f v bits m' f' : Nat) (h : ¬ (m' = m ∧ f' = f)) :
+    lookup (accumulate a m f v bits).2 m' f' = lookup a m' f' := by
+  induction a with
+  | nil =>
+    simp only [accumulate, lookup, List.find?_cons, List.find?_nil]
+    have : ¬ (m = m' ∧ f = f') := fun ⟨h1, h2⟩ => h ⟨h1.symm, h2.symm⟩
+    simp [this]
+  | cons e es ih =>
+    simp only [accumulate]
+    split_ifs with hk
+    · obtain ⟨h1, h2⟩ := hk
+      have hne : ¬ (e.mesgNum = m' ∧ e.fieldNum = f') := fun ⟨g1, g2⟩ => h ⟨by rw [← g1, h1], by rw [← g2, h2]⟩
+      simp only [lookup, List.find?_cons, hne, decide_false]
+    · unfold lookup at ih ⊢
+      simp only [List.find?_cons]
+      rw [ih]
 
 end Fit.Accum
